@@ -1714,6 +1714,40 @@ class C06(Oracle):
                 for x in range(W):
                     if vis[y][x] and isinstance(o2.grid[y, x], Hidden) and not isinstance(view[y, x], Hidden):
                         out.append(V(f'{which}/not-monotone', f'{c} opening {(i, j)} hides {(y, x)}'))
+        if out:
+            return out
+        # a world with a past: the same world object, already observed above, is looked at from other poses;
+        # a cell reported Hidden there is replaced in place: the observation does not change
+        rr = random.Random(c['pick'])
+        for _ in range(2):
+            s.agent.position = Position(rr.randrange(gh), rr.randrange(gw))
+            s.agent.orientation = rr.choice(gen.ORIENTS)
+            try:
+                ob = real_obs(which, s, area)
+            except Exception:
+                continue
+            ref = enc_state(ob)
+            tb = s.agent.transform
+            hidden = []
+            for i in range(H):
+                for j in range(W):
+                    wp = tb * Position(i + area.ymin, j + area.xmin)
+                    if isinstance(ob.grid[i, j], Hidden) and in_grid(s.grid, wp):
+                        hidden.append(wp)
+            if not hidden:
+                continue
+            wp = hidden[rr.randrange(len(hidden))]
+            original = s.grid[wp]
+            for tok in (c['repl'], 'F', 'W', 'K4'):
+                s.grid[wp] = dec_obj(tok)
+                try:
+                    changed = enc_state(real_obs(which, s, area)) != ref
+                except Exception:
+                    changed = True
+                s.grid[wp] = original
+                if changed:
+                    out.append(V(f'{which}/hidden-cell-interferes', f'{c}: the same world seen again from {s.agent.position} {s.agent.orientation.name}: world cell {wp} is reported Hidden, replacing it in place with {tok} changes the observation'))
+                    return out
         return out
 
 
